@@ -99,7 +99,14 @@ func c05Gen(tp *Tapes) *c05Spec {
 				op.Entry = EpExecuteWriterUnbuffered
 			}
 			if f.Draw(5) == 4 {
-				switch f.Draw(3) {
+				switch f.Draw(4) {
+				case 3:
+					// a loader that fails once in the middle of this operation (a lazy include at
+					// run time, a compile): only for operations whose fetches do not depend on what
+					// other tasks did to the cache
+					if op.Kind == "exec" || op.Kind == "string-exec" || op.Kind == "file-exec" {
+						op.Plan = append(op.Plan, FaultSpec{Site: KGet, Task: t, Op: i, Occ: f.Draw(3), Fault: FGetEIO, Disk: -1})
+					}
 				case 0, 1:
 					op.Plan = append(op.Plan, FaultSpec{Site: KCallback, Task: t, Op: i, Occ: f.Draw(10), Fault: FExecErr, Disk: -1})
 				case 2:
